@@ -114,10 +114,11 @@ type Object struct {
 	// select has nothing else ready (the wait "times out")
 	isTimer     bool
 	timerActive bool
+	tickPeriod  int64 // > 0: a ticker, which stays armed after it fires and advances the clock by its period (ns)
 }
 
 func (o *Object) clone(epoch int) *Object {
-	n := &Object{kind: o.kind, epoch: epoch, label: o.label, closed: o.closed, bufcap: o.bufcap, isTimer: o.isTimer, timerActive: o.timerActive}
+	n := &Object{kind: o.kind, epoch: epoch, label: o.label, closed: o.closed, bufcap: o.bufcap, isTimer: o.isTimer, timerActive: o.timerActive, tickPeriod: o.tickPeriod}
 	if o.slots != nil {
 		n.slots = make([]Value, len(o.slots))
 		copy(n.slots, o.slots)
